@@ -797,8 +797,8 @@ func (check typecheck) typeAssertionExpr(n *node, typ *itype) error {
 			}
 			return n.cfgErrorf("impossible type assertion: %s does not implement %s (missing %v method)", typ.id(), n.typ.id(), name)
 		}
-		if _, index := typ.lookupMethod(name); len(index) == 0 && tm.recv != nil && tm.recv.TypeOf().Kind() == reflect.Ptr && typ.TypeOf().Kind() != reflect.Ptr {
-			// The method is not promoted from an embedded field, possibly a pointer.
+		if _, index := typ.lookupMethod(name); typ.TypeOf().Kind() != reflect.Ptr && (len(index) == 0 && tm.recv != nil && tm.recv.TypeOf().Kind() == reflect.Ptr || !isBin(typ) && typ.needsPtrForMethod(name)) {
+			// The method has a pointer receiver and is not promoted through an embedded pointer.
 			return n.cfgErrorf("impossible type assertion: %s does not implement %s as %q method has a pointer receiver", typ.id(), n.typ.id(), name)
 		}
 
